@@ -5,6 +5,7 @@ import (
 	"encoding/hex"
 	"fmt"
 	"strings"
+	"sync/atomic"
 
 	"github.com/ipfs/go-cid"
 	"github.com/ipld/go-ipld-prime"
@@ -138,3 +139,8 @@ func TVs(vs []datatransfer.TypedVoucher) string {
 func ChidName(c datatransfer.ChannelID) string {
 	return fmt.Sprintf("%s-%s-%d", PeerName(c.Initiator), PeerName(c.Responder), uint64(c.ID))
 }
+
+var seqCounter atomic.Int64
+
+// NextSeq returns a process-wide increasing stamp used to order records of different recorders.
+func NextSeq() int64 { return seqCounter.Add(1) }
